@@ -1,0 +1,23 @@
+//go:build verif
+
+package messagequeue
+
+import "github.com/ipfs/go-graphsync"
+
+// VerifHook, when set, is called at the linearization points of the message queue
+// (verification builds only).  Calls are made while the lock protecting the reported
+// state is held, or from the queue's own goroutine.
+var VerifHook func(mq *MessageQueue, event string, topic Topic, requests []graphsync.RequestID)
+
+func (mq *MessageQueue) verifAt(event string, topic Topic, b *Builder) {
+	if VerifHook == nil {
+		return
+	}
+	var ids []graphsync.RequestID
+	if b != nil {
+		for id := range b.subscribers {
+			ids = append(ids, id)
+		}
+	}
+	VerifHook(mq, event, topic, ids)
+}
